@@ -2,6 +2,7 @@
 # usage: run_seeds.sh [seed ids...]   (default: every /verif/seeded/*/ whose meta.json says keep=true)
 # For each seeded change: apply it to /repo's working tree, run the quick check of its property (and any extra property
 # given in meta.json "also"), record exit code and VIOLATION lines in /verif/seeded/<id>/result.json, undo the change.
+# PROP=<id> overrides the property whose check is run (a change seeded for one property may be caught by another's check).
 # Never commits anything. Refuses to run if /repo has uncommitted changes to tracked files.
 cd /verif || exit 2
 if [ -n "$(git -C /repo status --porcelain --untracked-files=no)" ]; then echo "refusing: /repo has uncommitted changes"; exit 2; fi
@@ -9,7 +10,7 @@ ids="$@"; [ -z "$ids" ] && ids=$(ls /verif/seeded)
 for id in $ids; do
   d=/verif/seeded/$id
   [ -f $d/patch.diff ] || continue
-  prop=${id%%-*}
+  prop=${PROP:-${id%%-*}}
   if ! git -C /repo apply --check $d/patch.diff 2>/dev/null; then
     echo "$id: patch does not apply to the current tree (code changed since it was made)"; 
     python3 - $d <<'PY'
@@ -26,6 +27,8 @@ PY
   python3 - $d $rc "$viol" "$(echo "$out" | tail -3)" <<'PY'
 import json,sys
 d,rc,viol,tail=sys.argv[1:5]
-json.dump({"applies":True,"check_exit":int(rc),"caught":int(rc)==1,"violations":[v for v in viol.split('\n') if v],"tail":tail},open(d+'/result.json','w'),indent=1)
+import os
+r={"applies":True,"check_exit":int(rc),"caught":int(rc)==1,"violations":[v for v in viol.split('\n') if v],"tail":tail,"checked_property":os.environ.get("PROP","")}
+json.dump(r,open(d+'/result.json','w'),indent=1)
 PY
 done
